@@ -66,6 +66,30 @@ CHECKS = {
    text="All compared plans agree on the corpus explored, including the bare/tagged decision of NDJSON unions over a zoo of 3- and 4-case unions, the constructor argument order of generic serializers and the JSON keys of every converter (one listed known finding: an undefined numpy TypeVar in the dtype map of nested generics). Plans of generated C++ are not extracted here (they are executed by C01/C03). MATLAB is text-only (no interpreter), so a wrong static helper inside +yardl/+binary would not show.",
    note="Trusted: reference plan from docs/reference/binary.md; expression parser for Python / MATLAB call syntax; MATLAB fixed-array dimensions are reversed (column-major) by documented normalisation.", ref="§5 C14"),
 }
+
+# sentences appended after the fifth seeding round (what each check additionally explores since then)
+ADDENDA = {
+ "C01": dict(text=" Since the fifth round the generated Python reader / writer is an endpoint too (corpus, big values) and a retained-values workload keeps every decoded value while more than 64 KiB follow (Python list-keeping consumer, C++ batches of 64).",
+             tech="; generated Python executed on the same reference-encoded inputs (copy_to and list-keeping consumers)"),
+ "C02": dict(text=" The same two oracles run on the generated Python (document written = documented mapping; documented mapping read back), including record fields that are optional only through a named alias; the Python N-d-array-of-compound-elements defects are listed findings.",
+             tech="; generated Python NDJSON writer/reader executed under the same oracles"),
+ "C03": dict(text=" Also: arrays and vectors of fixed-width records with and without padding (nested, generic), and enums / flags over every integer base spelled through aliases, through all four endpoints.", tech=""),
+ "C05": dict(text=" Includes named aliases of primitives that changed, as elements of vectors / fixed vectors / streams (defect found and repaired: 8a0c624).", tech=""),
+ "C06": dict(text=" The documented classes are also applied below one to three levels of optional / vector / stream wrappers at four positions.", tech=""),
+ "C07": dict(text=" Every Python sequence also runs on the real generated binary and NDJSON readers / writers over in-memory streams, and leaving a with-block is an action of the alphabet.", tech="; the same sequences on the real generated Python binary / NDJSON classes"),
+ "C08": dict(text=" Includes a catalogue of generic aliases by body shape (one listed finding: identity alias in Python).", tech=""),
+ "C09": dict(text=" Positions include cases of untagged unions; look-alike scenarios place a valid use with the same spelling but another meaning before the violating one.", tech=""),
+ "C10": dict(text=" Includes every rule-violating construct of C09's catalogue at every position, alone and combined with a second violation (later validation passes run over trees that earlier passes rejected).", tech=""),
+ "C12": dict(text=" Packages with several independently broken parts (versions, imports, imports of versions) are run 30 (120) times each.", tech=""),
+ "C14": dict(text=" Includes enums / flags whose base type is an alias, an alias chain or an imported alias.", tech=""),
+ "C15": dict(text=" Includes single-edit neighbour packages that keep every name (documented and undocumented definitions), in both directions.", tech=""),
+ "C18": dict(text=" Every loop-free graph is also run with one namespace claimed by each pair of its packages, in two import orders.", tech=""),
+ "C19": dict(text=" Includes arithmetic over elements of narrow integer / float32 containers and narrow scalar fields with results beyond the element type.", tech=""),
+ "C20": dict(text=" Schedules include saves that give unchanged definition names a different meaning (defaults, enum zero value, alias target, generic body).", tech=""),
+}
+for _pid, _a in ADDENDA.items():
+    CHECKS[_pid]["text"] += _a["text"]
+    CHECKS[_pid]["tech"] += _a["tech"]
 NA_REASON = "check not built yet in this session (work in progress, see DESIGN.md §5 for the planned monitor)"
 
 def main():
